@@ -20,6 +20,8 @@ from hplmc.ref import types as T
 ID = 'C14'
 NSHARD = 48
 
+from hplmc.universe import GRID as FULL_GRID  # noqa: E402  (has a value menu for every sort, incl. messages)
+
 
 def bounds(tier):
     return {'nodes': 4 if tier == 'quick' else 5, 'max_width': 3 if tier == 'quick' else 4}
@@ -172,7 +174,7 @@ def check_object(obj, label, r):
                         return 'returned a non-boolean element'
                 return None
 
-            unsat = lambda e: isinstance(e, ValueError) and c09.always_false(cond, c13.GRID) and c09.has_false_literal_after_presplit(cond)  # noqa: E731
+            unsat = lambda e: isinstance(e, ValueError) and c09.always_false(cond, FULL_GRID) and c09.has_false_literal_after_presplit(cond)  # noqa: E731
             target = obj if kind == 'pred' else _as_bool(obj)
             call('split_and', lambda: R.split_and(target), allowed=unsat, expect=list_of_bool)
 
